@@ -2,19 +2,19 @@
    examples/<dir> is touched.  Statements only; proofs live in Text/UseMacro.v and Text/Example.v.
 
    Model: file = list of items (IImpl attrs body | IUse attrs tree | IOther attrs x | IVerb x), `gen` = the abstract
-   generator of the attribute macros with `show` off, `expand_macros` = src/file.rs:94-165, `fsu`/`update`/`is_mac` =
-   src/use_macro.rs, `example_ops` = the fs operations of src/write.rs:18-135.
+   generator of the attribute macros with `show` off, `expand_macros` = src/file.rs (pre-scan of the `use` items, the
+   loop, flatten), `fsu`/`update`/`is_mac` = src/use_macro.rs, `example_ops` = the fs operations of src/write.rs.
+   State of the code: with the fixes dup-attr, abs-path, glob-both, reimport and late-import.
 
-   FULL-STRENGTH STATEMENTS that are FALSE of the code (kept visible; each has a `_refuted` witness below,
-   replayed on the real macro by props/C18.py as a known finding):
-     (S)  forall macs file, expand_macros gen macs file = fold_left (fun f m => spec gen m f) macs file
-          -- false when one impl carries two attributes of the same macro (F12, dup-attr)
-     (R)  forall mac uses p, well_imported mac uses = true -> denotes mac uses p = true -> is_mac (track mac uses) p = true
-          -- false for `::interthread::mac` (abs-path), `use interthread as it; it::mac` (crate-alias),
-             two imports of one macro under different names (reimport)
-     (F)  every impl with an attribute that denotes the macro w.r.t. ALL `use` items of the file is expanded
-          -- false for `use interthread::*` with both macros expanded (glob-both) and for a `use` item placed
-             after the impl (late-import) *)
+   The earlier `_refuted` theorems for two attributes on one impl, `::interthread::mac`, a macro imported under
+   several names, `use interthread::*` with both macros, and a `use` item after the impl are replaced by positive
+   theorems (C18_shape without guard, C18_abs_path, C18_every_import, C18_other_macro_import_kept,
+   C18_recognition_position_free + the *_fixed examples in Text/Example.v).
+
+   FULL-STRENGTH STATEMENT that is still FALSE of the code (kept visible; `_refuted` witnesses below, replayed on the
+   real macro by props/C18.py as the only known finding):
+     (R)  forall mac uses p, denotes mac uses p = true -> is_mac (track mac uses) p = true
+          -- false for `use interthread as it; #[it::mac]` (crate-alias) *)
 From Coq Require Import List String Bool Permutation.
 Import ListNotations.
 From IT Require Import Text.UseMacro Text.Example.
@@ -23,15 +23,14 @@ Section C18.
 Variables A B X : Type.
 Variable gen : string -> A -> list (attr A) -> B -> list (item A B X).
 
-(* one pass: every item is replaced, in source order, by `spec_item`: an annotated impl by itself (once, macro
-   attributes removed) followed by what each macro attribute generates; a `use` item by itself minus the macro
+(* one pass, ANY file: every item is replaced, in source order, by `spec_item`: an annotated impl by itself (once, macro
+   attributes removed) followed by what EACH of its macro attributes generates; a `use` item by itself minus the macro
    imports; anything else by itself *)
-Theorem C18_shape : forall mac file, dup_attr A B X mac file = false ->
-  expand_macro A B X gen mac file = spec A B X gen mac file.
+Theorem C18_shape : forall mac file, expand_macro A B X gen mac file = spec A B X gen mac file.
 Proof. exact (expand_macro_shape A B X gen). Qed.
 
 (* expand(actor, family): pass after pass *)
-Theorem C18_shape_passes : forall macs file, dup_all A B X gen macs file = false ->
+Theorem C18_shape_passes : forall macs file,
   expand_macros A B X gen macs file = fold_left (fun f m => spec A B X gen m f) macs file.
 Proof. exact (expand_macros_shape A B X gen). Qed.
 
@@ -58,21 +57,37 @@ Theorem C18_attrs_stripped : forall u attrs,
   macro_attrs A u (exclude A u attrs) = [] /\
   filter (fun a => negb (is_mac u (a_path a))) (exclude A u attrs) = filter (fun a => negb (is_mac u (a_path a))) attrs.
 Proof. intros u attrs. split. - exact (exclude_no_macro A u attrs). - exact (exclude_keeps_others A u attrs). Qed.
+
+(* wherever an impl stands in the file, the macro is recognised as after ALL the `use` items, the later ones included *)
+Theorem C18_recognition_position_free : forall mac f1 f2 ue p,
+  let u := fst (fold_left (fun s it => next A B X (fst s) (snd s) it) f1 (prescan A B X mac (f1 ++ f2), ue)) in
+  is_mac u p = is_mac (track mac (uses_of A B X (f1 ++ f2))) p.
+Proof. exact (state_constant A B X). Qed.
+
+(* hence every attribute path that denotes the macro w.r.t. the whole file is recognised at every position,
+   crate-alias paths excepted *)
+Theorem C18_denoted_is_recognised : forall mac f1 f2 ue p,
+  alias_path p = false -> denotes mac (uses_of A B X (f1 ++ f2)) p = true ->
+  is_mac (fst (fold_left (fun s it => next A B X (fst s) (snd s) it) f1 (prescan A B X mac (f1 ++ f2), ue))) p = true.
+Proof. exact (denoted_is_recognised A B X). Qed.
 End C18.
 
-(* file_self_use on a use tree of any shape and nesting: no importing leaf -> tree untouched; otherwise the name bound
-   by the last importing leaf, and a tree with exactly the other leaves *)
+(* file_self_use on a use tree of any shape and nesting: the paths it reports are exactly the names bound by the
+   importing leaves (all of them), the remaining tree has exactly the other leaves and the globs, in order; nothing
+   found -> nothing reported, tree untouched *)
 Theorem C18_use_tracking : forall mac t, fsu_post mac t (fsu mac t).
 Proof. exact fsu_spec. Qed.
 
-(* the `unwrap()` of src/use_macro.rs:168 cannot panic *)
-Theorem C18_use_no_panic : forall mac t, fsu mac t <> (None, None).
-Proof. exact fsu_never_none_none. Qed.
+(* the pass of one macro never removes an import of another one: `use interthread::*` and `interthread::{actor, family}`
+   still import `family` after the `actor` pass *)
+Theorem C18_other_macro_import_kept : forall mac1 mac2 t, (mac2 =? mac1)%string = false ->
+  filter (imports_mac mac2) (oleaves (snd (fsu mac1 t))) = filter (imports_mac mac2) (leaves t).
+Proof. exact fsu_keeps_other_macro. Qed.
 
-(* `is` after the use items seen so far: full path, or the single name bound by the LAST importing leaf *)
+(* `is` after the use items seen so far: the full path (with or without leading `::`), or any imported name *)
 Theorem C18_is_exact : forall mac uses p,
   is_mac (track mac uses) p = true <->
-  lead p = false /\ (segs p = [INTERTHREAD; mac] \/ exists n, last_opt (vis_binds mac (flat_map leaves uses)) = Some n /\ segs p = [n]).
+  segs p = [INTERTHREAD; mac] \/ (lead p = false /\ exists n, In n (vis_binds mac (flat_map leaves uses)) /\ segs p = [n]).
 Proof. exact is_exact. Qed.
 
 (* what `is` accepts denotes the macro ... *)
@@ -80,39 +95,26 @@ Theorem C18_is_sound : forall mac uses p, well_imported mac uses = true ->
   is_mac (track mac uses) p = true -> denotes mac uses p = true.
 Proof. exact is_sound. Qed.
 
-(* ... and outside the known classes everything that denotes the macro is accepted *)
-Theorem C18_is_complete_guarded : forall mac uses p, well_imported mac uses = true ->
-  known_class mac uses p = false -> denotes mac uses p = true -> is_mac (track mac uses) p = true.
+(* ... and, crate-alias paths excepted, everything that denotes the macro is accepted *)
+Theorem C18_is_complete_guarded : forall mac uses p,
+  alias_path p = false -> denotes mac uses p = true -> is_mac (track mac uses) p = true.
 Proof. exact is_complete_guarded. Qed.
 
-Theorem C18_abs_path_refuted : exists mac uses p, well_imported mac uses = true /\ abs_path p = true /\
-  denotes mac uses p = true /\ is_mac (track mac uses) p = false.
-Proof. exact is_abs_path_refuted. Qed.
+Theorem C18_abs_path : forall mac uses, is_mac (track mac uses) (ap true [INTERTHREAD; mac]) = true.
+Proof. exact is_abs_path. Qed.
+
+Theorem C18_every_import : forall mac uses n, In n (mac_names mac (flat_map leaves uses)) ->
+  is_mac (track mac uses) (ap false [n]) = true.
+Proof. exact is_every_import. Qed.
 
 Theorem C18_crate_alias_refuted : exists mac uses p, well_imported mac uses = true /\ alias_path p = true /\
   denotes mac uses p = true /\ is_mac (track mac uses) p = false.
 Proof. exact is_crate_alias_refuted. Qed.
 
-Theorem C18_reimport_refuted : exists mac uses p, well_imported mac uses = true /\ multi_import mac uses = true /\
-  denotes mac uses p = true /\ is_mac (track mac uses) p = false.
-Proof. exact is_reimport_refuted. Qed.
-
-(* F12: two attributes of one macro on one impl: the specification has the impl once, the code twice *)
-Theorem C18_two_attrs_refuted : exists file : list titem,
-  dup_attr _ _ _ "actor" file = true /\ count_impl "B" file = 1 /\
-  count_impl "B" (t_spec ["actor"] file) = 1 /\ count_impl "B" (t_expand ["actor"] file) = 2.
-Proof. exact two_attrs_refuted. Qed.
-
-Theorem C18_glob_both_refuted : exists file : list titem, exists p,
-  denotes "family" (all_uses file) p = true /\ has_annotated file p = true /\
-  dup_all _ _ _ tgen ["actor"; "family"] file = false /\
-  has_annotated (t_expand ["actor"; "family"] file) p = true /\ all_uses (t_expand ["actor"; "family"] file) = [].
-Proof. exact glob_both_refuted. Qed.
-
-Theorem C18_late_import_refuted : exists file : list titem, exists p,
-  denotes "actor" (all_uses file) p = true /\ has_annotated file p = true /\
-  has_annotated (t_expand ["actor"] file) p = true /\ all_uses (t_expand ["actor"] file) = [].
-Proof. exact late_import_refuted. Qed.
+Theorem C18_crate_alias_file_refuted : exists file : list titem, exists p,
+  denotes "actor" (all_uses file) p = true /\ alias_path p = true /\ has_annotated file p = true /\
+  has_annotated (t_expand ["actor"] file) p = true.
+Proof. exact crate_alias_file_refuted. Qed.
 
 (* nothing outside <cwd>/examples/<dir> is created, changed or deleted (<cwd>/examples may be created), whatever
    the tree was, whether or not the directories existed, with or without main.rs *)
@@ -133,16 +135,16 @@ Print Assumptions C18_other_unchanged.
 Print Assumptions C18_plain_impl_unchanged.
 Print Assumptions C18_in_order.
 Print Assumptions C18_attrs_stripped.
+Print Assumptions C18_recognition_position_free.
+Print Assumptions C18_denoted_is_recognised.
 Print Assumptions C18_use_tracking.
-Print Assumptions C18_use_no_panic.
+Print Assumptions C18_other_macro_import_kept.
 Print Assumptions C18_is_exact.
 Print Assumptions C18_is_sound.
 Print Assumptions C18_is_complete_guarded.
-Print Assumptions C18_abs_path_refuted.
+Print Assumptions C18_abs_path.
+Print Assumptions C18_every_import.
 Print Assumptions C18_crate_alias_refuted.
-Print Assumptions C18_reimport_refuted.
-Print Assumptions C18_two_attrs_refuted.
-Print Assumptions C18_glob_both_refuted.
-Print Assumptions C18_late_import_refuted.
+Print Assumptions C18_crate_alias_file_refuted.
 Print Assumptions C18_fs_footprint.
 Print Assumptions C18_fs_examples_dir.
